@@ -17,7 +17,7 @@ Lemma edge_points_inv st id par pts st' :
   edge_points st id par pts = Ok st' -> wf st' /\ Inv st'.
 Proof.
   intros W HI Hpar. unfold edge_points.
-  destruct (has_nan pts); [discriminate|].
+  destruct (has_nan pts); [discriminate|]. destruct (bad_times pts); [discriminate|].
   destruct (bytes_eqb id par) eqn:Eself; [discriminate|].
   destruct (bytes_eqb id (s_root st) && existsb _ (collapse pts)); [discriminate|].
   assert (match par with [] => str_root | _ :: _ => par end = par) as -> by (destruct par; [contradiction|reflexivity]).
@@ -89,14 +89,14 @@ Proof. intros H. cbn [handle]. unfold edge_points. rewrite H. reflexivity. Qed.
 
 Theorem refused_self_edge st id pts : reply_of (handle st (EdgePts id id pts)) = 1.
 Proof.
-  cbn [handle]. unfold edge_points. destruct (has_nan pts); [reflexivity|]. rewrite bytes_eqb_refl. reflexivity.
+  cbn [handle]. unfold edge_points. destruct (has_nan pts); [reflexivity|]. destruct (bad_times pts); [reflexivity|]. rewrite bytes_eqb_refl. reflexivity.
 Qed.
 
 Theorem refused_root_tombstone st par pts :
   existsb (fun p => bytes_eqb (p_type p) str_tombstone && f64_gt0 (p_val p)) (collapse pts) = true ->
   reply_of (handle st (EdgePts (s_root st) par pts)) = 1.
 Proof.
-  intros H. cbn [handle]. unfold edge_points. destruct (has_nan pts); [reflexivity|].
+  intros H. cbn [handle]. unfold edge_points. destruct (has_nan pts); [reflexivity|]. destruct (bad_times pts); [reflexivity|].
   destruct (bytes_eqb (s_root st) par); [reflexivity|]. rewrite bytes_eqb_refl, H. reflexivity.
 Qed.
 
@@ -108,7 +108,7 @@ Theorem refused_cycle st id par pts l :
   reply_of (handle st (EdgePts id par pts)) = 1.
 Proof.
   intros W Hpar Hf Hw Hend. cbn [handle]. unfold edge_points.
-  destruct (has_nan pts); [reflexivity|].
+  destruct (has_nan pts); [reflexivity|]. destruct (bad_times pts); [reflexivity|].
   destruct (bytes_eqb id par); [reflexivity|].
   destruct (bytes_eqb id (s_root st) && existsb _ (collapse pts)); [reflexivity|].
   assert (match par with [] => str_root | _ :: _ => par end = par) as -> by (destruct par; [contradiction|reflexivity]).
@@ -123,7 +123,7 @@ Theorem refused_no_node_type st id par pts :
   reply_of (handle st (EdgePts id par pts)) = 1.
 Proof.
   intros Hpar Hf Hnt. cbn [handle]. unfold edge_points.
-  destruct (has_nan pts); [reflexivity|].
+  destruct (has_nan pts); [reflexivity|]. destruct (bad_times pts); [reflexivity|].
   destruct (bytes_eqb id par); [reflexivity|].
   destruct (bytes_eqb id (s_root st) && existsb _ (collapse pts)); [reflexivity|].
   assert (match par with [] => str_root | _ :: _ => par end = par) as -> by (destruct par; [contradiction|reflexivity]).
@@ -192,7 +192,7 @@ Theorem node_points_rows st id pts st' : rows_ok st -> node_points st id pts = O
   map e_pts (s_edges st') = map e_pts (s_edges st) /\
   rows_ok st'.
 Proof.
-  intros RO. unfold node_points. destruct (has_nan pts); [discriminate|].
+  intros RO. unfold node_points. destruct (has_nan pts); [discriminate|]. destruct (bad_times pts); [discriminate|].
   destruct (merge_batch false (node_rows (s_nodes st) id) (collapse pts)) as [rows d] eqn:EM.
   intros E. inversion E; subst st'; clear E. cbn [s_nodes s_edges].
   assert (Hrows : rows = batch_rows false (node_rows (s_nodes st) id) pts) by (unfold batch_rows; rewrite EM; reflexivity).
@@ -225,7 +225,7 @@ Fixpoint accepted_node (st : store) (ops : list op) (id : bytes) : list point :=
 
 Lemma edge_points_nodes st id par pts st' : edge_points st id par pts = Ok st' -> s_nodes st' = s_nodes st.
 Proof.
-  unfold edge_points. destruct (has_nan pts); [discriminate|].
+  unfold edge_points. destruct (has_nan pts); [discriminate|]. destruct (bad_times pts); [discriminate|].
   destruct (bytes_eqb id par); [discriminate|].
   destruct (bytes_eqb id (s_root st) && existsb _ (collapse pts)); [discriminate|].
   destruct (find_edge _ _ id) as [e|].
@@ -241,7 +241,7 @@ Lemma node_points_nodes_ok st id pts st' : nodes_ok st -> node_points st id pts 
   node_rows (s_nodes st') id = batch_rows false (node_rows (s_nodes st) id) pts /\
   (forall id', id' <> id -> node_rows (s_nodes st') id' = node_rows (s_nodes st) id') /\ nodes_ok st'.
 Proof.
-  intros RO. unfold node_points. destruct (has_nan pts); [discriminate|].
+  intros RO. unfold node_points. destruct (has_nan pts); [discriminate|]. destruct (bad_times pts); [discriminate|].
   destruct (merge_batch false (node_rows (s_nodes st) id) (collapse pts)) as [rows d] eqn:EM.
   intros E. inversion E; subst st'; clear E. cbn [s_nodes].
   assert (Hrows : rows = batch_rows false (node_rows (s_nodes st) id) pts) by (unfold batch_rows; rewrite EM; reflexivity).
@@ -287,7 +287,7 @@ Theorem edge_points_rows_existing st id par pts st' e :
   exists e', In e' (s_edges st') /\ e_id e' = e_id e /\ e_up e' = par /\ e_down e' = id /\
              e_pts e' = batch_rows true (e_pts e) pts.
 Proof.
-  intros Hpar Hk Hf. unfold edge_points. destruct (has_nan pts); [discriminate|].
+  intros Hpar Hk Hf. unfold edge_points. destruct (has_nan pts); [discriminate|]. destruct (bad_times pts); [discriminate|].
   destruct (bytes_eqb id par); [discriminate|].
   destruct (bytes_eqb id (s_root st) && existsb _ (collapse pts)); [discriminate|].
   assert (match par with [] => str_root | _ :: _ => par end = par) as -> by (destruct par; [contradiction|reflexivity]).
@@ -368,7 +368,7 @@ Theorem node_write_hash_change st id pts st' :
                   (if Nat.odd (cnt (e_id e) (visits (s_edges st) (fuel_of (s_edges st)) id)) then d else 0))
       (s_edges st).
 Proof.
-  unfold node_points. destruct (has_nan pts); [discriminate|].
+  unfold node_points. destruct (has_nan pts); [discriminate|]. destruct (bad_times pts); [discriminate|].
   destruct (merge_batch false (node_rows (s_nodes st) id) (collapse pts)) as [rows d0] eqn:EM.
   intros E. inversion E; subst st'; clear E. cbn [s_nodes s_edges].
   pose proof (merge_batch_snd false (node_rows (s_nodes st) id) (collapse pts)) as Hd. rewrite EM in Hd. cbn [fst snd] in Hd.
@@ -412,14 +412,14 @@ Lemma node_points_edge_rows st id pts st' up down :
   node_points st id pts = Ok st' -> edge_rows st' up down = edge_rows st up down.
 Proof.
   destruct st as [ns G r n]. unfold node_points. cbn [s_nodes s_edges s_root s_next].
-  destruct (has_nan pts); [discriminate|].
+  destruct (has_nan pts); [discriminate|]. destruct (bad_times pts); [discriminate|].
   destruct (merge_batch false (node_rows ns id) (collapse pts)) as [rows d].
   intros E. inversion E; subst st'. unfold update_hash. apply edge_rows_toggle.
 Qed.
 
 Lemma node_points_edges_ok st id pts st' : edges_ok st -> node_points st id pts = Ok st' -> edges_ok st'.
 Proof.
-  intros HO. unfold node_points. destruct (has_nan pts); [discriminate|].
+  intros HO. unfold node_points. destruct (has_nan pts); [discriminate|]. destruct (bad_times pts); [discriminate|].
   destruct (merge_batch false (node_rows (s_nodes st) id) (collapse pts)) as [rows d].
   intros E. inversion E; subst st'. intros e He. cbn [s_edges] in He. unfold update_hash in He.
   apply in_map_iff in He as (e0 & <- & He0). rewrite toggle_pts. apply HO. exact He0.
@@ -446,7 +446,7 @@ Theorem edge_points_edge_rows st id par pts st' :
   (forall up down, (up, down) <> (par, id) -> edge_rows st' up down = edge_rows st up down) /\
   edges_ok st'.
 Proof.
-  intros W HO Hpar. unfold edge_points. destruct (has_nan pts); [discriminate|].
+  intros W HO Hpar. unfold edge_points. destruct (has_nan pts); [discriminate|]. destruct (bad_times pts); [discriminate|].
   destruct (bytes_eqb id par); [discriminate|].
   destruct (bytes_eqb id (s_root st) && existsb _ (collapse pts)); [discriminate|].
   assert (match par with [] => str_root | _ :: _ => par end = par) as -> by (destruct par; [contradiction|reflexivity]).
